@@ -155,4 +155,170 @@ theorem interpUnit_smul (c : ℚ) (fp : List ℚ) (l r x : ℚ) :
   · ring
   · rfl
 
+
+/-! ### general `np.interp` (strictly increasing `xp`) -/
+
+/-- inside a bracket `xp[i] ≤ x < xp[i+1]` the scan returns NumPy's `slope*(x - xp[i]) + fp[i]` -/
+theorem interpScan_between (xp fp : List ℚ) (hlen : xp.length = fp.length) (hs : xp.Pairwise (· < ·))
+    (i : ℕ) (hi : i + 1 < xp.length) (x : ℚ) (h1 : xp[i] ≤ x) (h2 : x < xp[i + 1]) :
+    interpScan xp fp x =
+      (fp[i + 1]'(by omega) - fp[i]'(by omega)) / (xp[i + 1] - xp[i]) * (x - xp[i]) + fp[i]'(by omega) := by
+  induction i generalizing xp fp with
+  | zero =>
+    match xp, fp, hlen, hi with
+    | x0 :: x1 :: xs, f0 :: f1 :: fs, _, _ =>
+      simp only [List.getElem_cons_zero, List.getElem_cons_succ] at h1 h2 ⊢
+      simp only [interpScan, if_pos h2]
+  | succ i ih =>
+    match xp, fp, hlen, hi with
+    | x0 :: x1 :: xs, f0 :: f1 :: fs, hlen, hi =>
+      simp only [List.getElem_cons_succ] at h1 h2 ⊢
+      have hs' : (x1 :: xs).Pairwise (· < ·) := (List.pairwise_cons.mp hs).2
+      have hx1 : x1 ≤ x := by
+        rcases Nat.eq_zero_or_pos i with h0 | h0
+        · subst h0; simpa using h1
+        · have hmem : (x1 :: xs)[i]'(by simp at hi ⊢; omega) ∈ xs := by
+            cases i with
+            | zero => omega
+            | succ j => simp only [List.getElem_cons_succ]; exact List.getElem_mem _
+          have := (List.pairwise_cons.mp hs').1 _ hmem
+          linarith
+      simp only [interpScan, if_neg (not_lt.mpr hx1)]
+      exact ih (x1 :: xs) (f1 :: fs) (by simpa using hlen) hs' (by simp at hi ⊢; omega) h1 h2
+
+/-- at the last node the scan returns `fp[-1]` -/
+theorem interpScan_last (xp fp : List ℚ) (hlen : xp.length = fp.length) (hs : xp.Pairwise (· < ·))
+    (hne : xp ≠ []) :
+    interpScan xp fp (xp.getLast hne) = fp.getLast (by intro h; rw [h] at hlen; simp at hlen; exact hne hlen) := by
+  induction xp generalizing fp with
+  | nil => exact absurd rfl hne
+  | cons x0 xs ih =>
+    match xs, fp, hlen with
+    | [], [f0], _ => simp [interpScan]
+    | x1 :: xs', f0 :: f1 :: fs, hlen =>
+      have hs' : (x1 :: xs').Pairwise (· < ·) := (List.pairwise_cons.mp hs).2
+      have hlast : (x0 :: x1 :: xs').getLast hne = (x1 :: xs').getLast (by simp) := by simp
+      have hge : x1 ≤ (x1 :: xs').getLast (by simp) := by
+        rcases List.mem_cons.mp (List.getLast_mem (l := x1 :: xs') (by simp)) with h | h
+        · rw [h]
+        · exact le_of_lt ((List.pairwise_cons.mp hs').1 _ h)
+      rw [hlast]
+      simp only [interpScan, if_neg (not_lt.mpr hge)]
+      rw [ih (f1 :: fs) (by simpa using hlen) hs' (by simp)]
+      simp
+
+/-- range preservation of the scan: for `xp[0] ≤ x`, the result lies between bounds of `fp` -/
+theorem interpScan_mem_range (xp fp : List ℚ) (hlen : xp.length = fp.length) (hs : xp.Pairwise (· < ·))
+    (hne : xp ≠ []) (x lo hi : ℚ) (hx : xp.head hne ≤ x) (hfp : ∀ v ∈ fp, lo ≤ v ∧ v ≤ hi) :
+    lo ≤ interpScan xp fp x ∧ interpScan xp fp x ≤ hi := by
+  induction xp generalizing fp with
+  | nil => exact absurd rfl hne
+  | cons x0 xs ih =>
+    match xs, fp, hlen with
+    | [], [f0], _ => simpa [interpScan] using hfp f0 (by simp)
+    | x1 :: xs', f0 :: f1 :: fs, hlen =>
+      have hs' : (x1 :: xs').Pairwise (· < ·) := (List.pairwise_cons.mp hs).2
+      have h01 : x0 < x1 := (List.pairwise_cons.mp hs).1 x1 (by simp)
+      simp only [List.head_cons] at hx
+      by_cases hlt : x < x1
+      · simp only [interpScan, if_pos hlt]
+        obtain ⟨a1, a2⟩ := hfp f0 (by simp)
+        obtain ⟨b1, b2⟩ := hfp f1 (by simp)
+        have hd : 0 < x1 - x0 := by linarith
+        set t := (x - x0) / (x1 - x0) with ht
+        have ht0 : 0 ≤ t := div_nonneg (by linarith) hd.le
+        have ht1 : t ≤ 1 := by rw [ht, div_le_one hd]; linarith
+        have he : (f1 - f0) / (x1 - x0) * (x - x0) + f0 = (1 - t) * f0 + t * f1 := by
+          rw [ht]; field_simp; ring
+        rw [he]
+        have h1t : 0 ≤ 1 - t := by linarith
+        constructor
+        · nlinarith [mul_le_mul_of_nonneg_left a1 h1t, mul_le_mul_of_nonneg_left b1 ht0]
+        · nlinarith [mul_le_mul_of_nonneg_left a2 h1t, mul_le_mul_of_nonneg_left b2 ht0]
+      · simp only [interpScan, if_neg hlt]
+        exact ih (f1 :: fs) (by simpa using hlen) hs' (by simp) (by simpa using not_lt.mp hlt)
+          (fun v hv => hfp v (by simp only [List.mem_cons] at hv ⊢; exact Or.inr hv))
+
+/-- `np.interp` at a node returns the node value (`interp_at_node`) -/
+theorem interp_node (xp fp : List ℚ) (l r : ℚ) (hlen : xp.length = fp.length) (hs : xp.Pairwise (· < ·))
+    (i : ℕ) (hi : i < xp.length) : interp xp fp l r xp[i] = fp[i]'(by omega) := by
+  have hne : xp ≠ [] := by intro h; rw [h] at hi; simp at hi
+  have hhead : ∀ j (hj : j < xp.length), xp.head hne ≤ xp[j] := by
+    intro j hj
+    match xp, hne, hs, hj with
+    | x0 :: xs, _, hs, hj =>
+      cases j with
+      | zero => simp
+      | succ j =>
+        simp only [List.head_cons, List.getElem_cons_succ]
+        exact le_of_lt ((List.pairwise_cons.mp hs).1 _ (List.getElem_mem _))
+  have hlastge : ∀ j (hj : j < xp.length), xp[j] ≤ xp.getLast hne := by
+    intro j hj
+    rw [List.getLast_eq_getElem]
+    rcases Nat.lt_or_ge j (xp.length - 1) with h | h
+    · exact le_of_lt (List.pairwise_iff_getElem.mp hs j (xp.length - 1) hj (by omega) h)
+    · have : j = xp.length - 1 := by omega
+      subst this; exact le_refl _
+  unfold interp
+  match xp, hne, hhead, hlastge, hs, hlen, hi with
+  | x0 :: xs, hne, hhead, hlastge, hs, hlen, hi =>
+    have h1 : ¬ ((x0 :: xs)[i] < x0) := not_lt.mpr (by simpa using hhead i hi)
+    have h2 : ¬ ((x0 :: xs).getD ((x0 :: xs).length - 1) 0 < (x0 :: xs)[i]) := by
+      rw [getD_of_lt _ _ (by simp), ← List.getLast_eq_getElem hne]
+      exact not_lt.mpr (hlastge i hi)
+    simp only [h1, h2, if_false]
+    rcases Nat.lt_or_ge (i + 1) (x0 :: xs).length with h | h
+    · rw [interpScan_between _ _ hlen hs i h _ (le_refl _)
+        (List.pairwise_iff_getElem.mp hs i (i + 1) hi h (by omega))]
+      ring
+    · have hil : i = (x0 :: xs).length - 1 := by omega
+      have hx : (x0 :: xs)[i] = (x0 :: xs).getLast hne := by
+        rw [List.getLast_eq_getElem]; congr 1
+      rw [hx, interpScan_last _ _ hlen hs hne, List.getLast_eq_getElem]
+      congr 1; omega
+
+/-- `np.interp` never leaves the range of `fp`, `left`, `right` (`interp_mem_range`) -/
+theorem interp_mem_range (xp fp : List ℚ) (l r x lo hi : ℚ) (hlen : xp.length = fp.length)
+    (hs : xp.Pairwise (· < ·)) (hne : xp ≠ [])
+    (hfp : ∀ v ∈ fp, lo ≤ v ∧ v ≤ hi) (hl : lo ≤ l ∧ l ≤ hi) (hr : lo ≤ r ∧ r ≤ hi) :
+    lo ≤ interp xp fp l r x ∧ interp xp fp l r x ≤ hi := by
+  unfold interp
+  match xp, hne, hs, hlen with
+  | x0 :: xs, hne, hs, hlen =>
+    simp only
+    split
+    · exact hl
+    · split
+      · exact hr
+      · rename_i h1 h2
+        exact interpScan_mem_range _ _ hlen hs hne x lo hi (by simpa using not_lt.mp h1) hfp
+
+
+/-- between two nodes `np.interp` is NumPy's `slope*(x - xp[i]) + fp[i]` (`interp_between`) -/
+theorem interp_between (xp fp : List ℚ) (l r : ℚ) (hlen : xp.length = fp.length) (hs : xp.Pairwise (· < ·))
+    (i : ℕ) (hi : i + 1 < xp.length) (x : ℚ) (h1 : xp[i] ≤ x) (h2 : x < xp[i + 1]) :
+    interp xp fp l r x =
+      (fp[i + 1]'(by omega) - fp[i]'(by omega)) / (xp[i + 1] - xp[i]) * (x - xp[i]) + fp[i]'(by omega) := by
+  have hne : xp ≠ [] := by intro h; rw [h] at hi; simp at hi
+  have hge0 : xp[0]'(by omega) ≤ xp[i] := by
+    rcases Nat.eq_zero_or_pos i with h | h
+    · subst h; exact le_refl _
+    · exact le_of_lt (List.pairwise_iff_getElem.mp hs 0 i (by omega) (by omega) h)
+  have hlel : xp[i + 1] ≤ xp[xp.length - 1]'(by omega) := by
+    rcases Nat.lt_or_ge (i + 1) (xp.length - 1) with h | h
+    · exact le_of_lt (List.pairwise_iff_getElem.mp hs (i + 1) (xp.length - 1) hi (by omega) h)
+    · have : i + 1 = xp.length - 1 := by omega
+      simp only [this, le_refl]
+  unfold interp
+  match xp, hne, hs, hlen, hi, h1, h2, hge0, hlel with
+  | x0 :: xs, hne, hs, hlen, hi, h1, h2, hge0, hlel =>
+    have c1 : ¬ (x < x0) := by
+      simp only [List.getElem_cons_zero] at hge0
+      exact not_lt.mpr (le_trans hge0 h1)
+    have c2 : ¬ ((x0 :: xs).getD ((x0 :: xs).length - 1) 0 < x) := by
+      rw [getD_of_lt _ _ (by simp)]
+      exact not_lt.mpr (le_of_lt (lt_of_lt_of_le h2 hlel))
+    simp only [c1, c2, if_false]
+    exact interpScan_between _ _ hlen hs i hi x h1 h2
+
 end EqsigVerif.Interp
